@@ -424,13 +424,52 @@ func c15histories(tier string) []c15history {
 			}
 		}
 	}
+	{
+		// every order of three snapshots x every way of ending each (quick: at most one not closed) x retain 1..3
+		perms := [][3]int{{0, 1, 2}, {0, 2, 1}, {1, 0, 2}, {1, 2, 0}, {2, 0, 1}, {2, 1, 0}}
+		for _, retain := range []int{1, 2, 3} {
+			for _, perm := range perms {
+				for _, e0 := range ends {
+					for _, e1 := range ends {
+						for _, e2 := range ends {
+							e := [3]string{e0, e1, e2}
+							notClosed := 0
+							for _, x := range e {
+								if x != "close" {
+									notClosed++
+								}
+							}
+							if tier != "thorough" && notClosed > 1 {
+								continue
+							}
+							var ss []snapSpec
+							for k := 0; k < 3; k++ {
+								ss = append(ss, snapSpec{ti[perm[k]][0], ti[perm[k]][1], 9 + k, e[k]})
+							}
+							out = append(out, c15history{Retain: retain, Snaps: ss})
+						}
+					}
+				}
+			}
+		}
+	}
 	if tier == "thorough" {
-		for _, retain := range []int{1, 2} {
-			for _, perm := range [][3]int{{0, 1, 2}, {2, 1, 0}, {1, 2, 0}, {0, 2, 1}} {
-				for _, e := range [][3]string{{"close", "close", "close"}, {"close", "cancel", "close"}, {"close", "close", "abandon"}, {"abandon", "close", "close"}} {
+		// four snapshots, all closed, increasing and decreasing (term,index), retain 1..3: reaping of two at once
+		ti4 := [][2]uint64{{1, 5}, {1, 9}, {2, 3}, {2, 11}}
+		for _, retain := range []int{1, 2, 3} {
+			for _, rev := range []bool{false, true} {
+				for _, mid := range ends {
 					var ss []snapSpec
-					for k := 0; k < 3; k++ {
-						ss = append(ss, snapSpec{ti[perm[k]][0], ti[perm[k]][1], 9 + k, e[k]})
+					for k := 0; k < 4; k++ {
+						j := k
+						if rev {
+							j = 3 - k
+						}
+						e := "close"
+						if k == 2 {
+							e = mid
+						}
+						ss = append(ss, snapSpec{ti4[j][0], ti4[j][1], 3 + k, e})
 					}
 					out = append(out, c15history{Retain: retain, Snaps: ss})
 				}
@@ -585,7 +624,7 @@ func replayC15(m map[string]any) (string, bool) {
 func init() {
 	enumReplays["enum-filesnapshot"] = replayC15
 	register(&Check{Prop: "C15", Level: "fault_enumeration",
-		Rule: "every history of <=2 (thorough: 3) snapshots with (term,index) in every order, sizes 0 / 5 / 5000 bytes, retain 1 or 2, each ended by Close, Cancel or abandoned, is executed on the real FileSnapshotStore over an in-memory file system that logs every operation; for every prefix of that log and every combination of surviving not-yet-durable effects (per directory a prefix of its entry operations, per file a prefix of its data operations, never less than what fsync made durable) the crash image is opened by a fresh FileSnapshotStore; final images are also checked with a flipped state byte and with truncated / garbled meta.json; distinct = distinct (history, crash point, survival vector, corruption)",
+		Rule: "every history of <=2 snapshots, every order of 3 snapshots x every combination of endings (quick: at most one not closed) x retain 1..3 (thorough: also 4-snapshot histories) with (term,index) in every order, sizes 0 / 5 / 5000 bytes, retain 1 or 2, each ended by Close, Cancel or abandoned, is executed on the real FileSnapshotStore over an in-memory file system that logs every operation; for every prefix of that log and every combination of surviving not-yet-durable effects (per directory a prefix of its entry operations, per file a prefix of its data operations, never less than what fsync made durable) the crash image is opened by a fresh FileSnapshotStore; final images are also checked with a flipped state byte and with truncated / garbled meta.json; distinct = distinct (history, crash point, survival vector, corruption)",
 		Assumptions: []string{"durability model: fsync(file) persists the file's data and its own directory entry; fsync(dir) persists the directory's earlier entry operations; per-directory and per-file effects reach the disk in order; rename is atomic; un-synced effects survive or not independently per directory and per file",
 			"os is replaced by the in-memory file system only in file_snapshot.go (build-time overlay)"},
 		Units: func(tier string) []Unit { return []Unit{{Name: "enum-filesnapshot", Enum: enumC15}} }})
